@@ -92,6 +92,26 @@ def run_impl(base: int, n: int, init: list, ops: list[tuple[str, object]]):
                 entries, as_string = arg
                 val = render_subset_string(entries) if as_string else list(entries)
                 (u.update if name == 'upd' else u.difference_update)(val)
+            elif name in ('bor', 'bsub', 'band', 'bxor'):
+                # non in-place operators: a NEW subset is returned, both operands stay as they were
+                o = UnicodeSubset(list(arg))
+                before_u, before_o = list(u.codepoints), list(o.codepoints)
+                r = {'bor': u.__or__, 'bsub': u.__sub__, 'band': u.__and__, 'bxor': u.__xor__}[name](o)
+                if r is u or r is o or list(u.codepoints) != before_u or list(o.codepoints) != before_o \
+                        or r.codepoints is u.codepoints or r.codepoints is o.codepoints:
+                    outs.append((impl_list_str(r.codepoints) + '!operand-mutated-or-aliased', ''))
+                    break
+                u = r
+            elif name == 'copyclear':
+                # copy() must be independent of the original: clearing / adding to the copy leaves u unchanged
+                c2 = u.copy()
+                before_u = list(u.codepoints)
+                c2.add(arg)
+                c3 = UnicodeSubset(u)
+                c3.clear()
+                if list(u.codepoints) != before_u or c2.codepoints is u.codepoints or len(c3) != 0:
+                    outs.append((impl_list_str(u.codepoints) + '!copy-aliased', ''))
+                    break
             elif name in ('iorl', 'isubl', 'iandl', 'ixorl'):
                 o = list(arg)        # plain iterable operand
                 if name == 'iorl':
@@ -135,8 +155,13 @@ def argstr(name, arg) -> str:
     return lstr(arg)
 
 
+PROTO_NAME = {'bor': 'ior', 'bsub': 'isub', 'band': 'iand', 'bxor': 'ixor'}
+
+
 def line_of(base, n, init, ops) -> str:
-    o = ';'.join(f'{name} {argstr(name, arg)}' for name, arg in ops)
+    # the value-level meaning of `a | b` is that of `a |= b` on a copy; `copyclear` leaves the state alone
+    o = ';'.join((f'{PROTO_NAME.get(name, name)} {argstr(name, arg)}' if name != 'copyclear' else 'isub _')
+                 for name, arg in ops)
     return f'W={base},{n} I={lstr(init)} OPS={o};'
 
 
@@ -230,8 +255,10 @@ def gen_case(rng, quick=True):
             # of entries, or with the equivalent character-subset string
             entries = [gen_entry(rng, base, n) for _ in range(rng.randint(0, 6))]
             ops.append((rng.choice(['upd', 'upd', 'dupd']), (entries, stringable and rng.random() < 0.5)))
+        elif r < 0.88:
+            ops.append(('copyclear', gen_entry(rng, base, n)))
         else:
-            name = rng.choice(['ior', 'isub', 'iand', 'ixor'])
+            name = rng.choice(['ior', 'isub', 'iand', 'ixor', 'bor', 'bsub', 'band', 'bxor'])
             ops.append((name, gen_canon_list(rng, base, n, rng.choice([0.05, 0.2, 0.5]))))
     if safe_only:
         ops = [(a, (b if not (isinstance(b, tuple) and len(b) == 2 and isinstance(b[0], int) and b[1] - b[0] == 1)
@@ -302,6 +329,10 @@ def compare(run: Run, cases: list) -> None:
                 break
             i_repr, i_bits = impl[k]
             prefix = line_of(base, n, init, ops[:k])
+            if i_repr.endswith(('!operand-mutated-or-aliased', '!copy-aliased')):
+                run.disagree(Disagreement(prefix, i_repr, m_repr, spec=s_canon + ' (operands unchanged, new object)',
+                                          what='operator-purity', site='UnicodeSubset.__or__/__sub__/__and__/__xor__/copy'))
+                break
             if i_repr.startswith('ERR') or i_repr.endswith(('!iter', '!iter-vs-contains')):
                 run.disagree(Disagreement(prefix, i_repr, m_repr, spec=s_canon, what='exception-or-iter',
                                           site='UnicodeSubset'))
